@@ -142,8 +142,8 @@ var templatetags = map[string]string{
 }
 
 type SeqCase struct {
-	Srcs  []eng.Q `json:"srcs"`
-	Outs  []eng.Q `json:"outs"`
+	Srcs  []eng.Q  `json:"srcs"`
+	Outs  []eng.Q  `json:"outs"`
 	Kinds []string `json:"kinds"`
 }
 
